@@ -21,8 +21,8 @@ import (
 	"flag"
 	"fmt"
 	"io"
+	"math/rand"
 	"os"
-	"path/filepath"
 	"sort"
 	"strings"
 	"sync"
@@ -163,7 +163,8 @@ type pexec struct {
 	v        pvector
 	pd       time.Duration
 	deadline time.Duration
-	dir      string
+	pl       *place
+	rng      *rand.Rand
 	path     string
 	r        *followreader.PollingFollowReader
 	results  chan presult
@@ -236,7 +237,7 @@ func (e *pexec) wait(t time.Time, until func() bool) (kind, detail string) {
 }
 
 func (e *pexec) appendBytes(b []byte) error {
-	f, err := os.OpenFile(e.path, os.O_APPEND|os.O_WRONLY, 0o644)
+	f, err := os.OpenFile(e.pl.real, os.O_APPEND|os.O_WRONLY, 0o644)
 	if err != nil {
 		return err
 	}
@@ -250,6 +251,15 @@ func (e *pexec) appendBytes(b []byte) error {
 }
 
 func (e *pexec) envOp(st pstep) error {
+	// Follow!EnvOther may happen at any moment: sibling activity chosen by the harness around the operation
+	if e.rng.Intn(3) == 0 {
+		e.log(e.pl.noise(e.rng))
+	}
+	defer func() {
+		if e.rng.Intn(3) == 0 {
+			e.log(e.pl.noise(e.rng))
+		}
+	}()
 	switch st.Op {
 	case "append":
 		e.log(M{"event": "append", "data": st.Data})
@@ -258,10 +268,10 @@ func (e *pexec) envOp(st pstep) error {
 		e.log(M{"event": "remove"})
 		e.exists = false
 		e.removed = true
-		return os.Remove(e.path)
+		return os.Remove(e.pl.real)
 	case "create":
 		e.log(M{"event": "create"})
-		f, err := os.OpenFile(e.path, os.O_CREATE|os.O_EXCL|os.O_WRONLY, 0o644)
+		f, err := os.OpenFile(e.pl.real, os.O_CREATE|os.O_EXCL|os.O_WRONLY, 0o644)
 		if err != nil {
 			return err
 		}
@@ -296,7 +306,7 @@ func (e *pexec) finish() {
 	if e.started {
 		kick := make([]byte, 4096+e.written)
 		if !e.exists {
-			os.WriteFile(e.path, kick, 0o644)
+			os.WriteFile(e.pl.real, kick, 0o644)
 		} else {
 			e.appendBytes(kick)
 		}
@@ -314,7 +324,7 @@ func (e *pexec) finish() {
 		}
 	}
 	e.r.Close()
-	os.RemoveAll(e.dir)
+	os.RemoveAll(e.pl.dir)
 }
 
 type poutcome struct {
@@ -328,7 +338,7 @@ type poutcome struct {
 
 func (e *pexec) run() (out poutcome, infra error) {
 	v := e.v
-	e.log(M{"event": "reset", "poll": true, "reopen": v.Reopen, "tail": v.Tail, "init": v.Init})
+	e.log(M{"event": "reset", "poll": true, "reopen": v.Reopen, "tail": v.Tail, "init": v.Init, "path": e.pl.kind})
 	fail := func(i int, kind, detail string) poutcome {
 		if kind == "hang" || kind == "no-eof" {
 			e.log(M{"event": "quiet"})
@@ -406,10 +416,11 @@ func (e *pexec) run() (out poutcome, infra error) {
 }
 
 type pjob struct {
-	idx int
-	v   pvector
-	raw json.RawMessage
-	rep int
+	idx  int
+	v    pvector
+	raw  json.RawMessage
+	rep  int
+	kind string
 }
 
 type pjobResult struct {
@@ -418,21 +429,28 @@ type pjobResult struct {
 	events   []M
 	infra    error
 	opens  int // re-opens of the path by the reader during the history (-1: not measured)
+	kind   string
 }
 
 func pexecute(j pjob, pd, deadline time.Duration, base string, oc *openCounter) pjobResult {
-	dir, err := os.MkdirTemp(base, "p")
+	// the kind of path: the file's own name, or a symbolic link to it (Follow.tla knows no difference)
+	kind := j.kind
+	if kind == "" {
+		kind = []string{"file", "link-same", "file", "link-other"}[(j.idx+j.rep)%4]
+	}
+	rng := rand.New(rand.NewSource(vh.Seed()*104729 + int64(j.idx)*31 + int64(j.rep)))
+	pl, err := newPlace(base, kind, rng, vh.FromInts(j.v.Init), []string{"suf", "pre"})
 	if err != nil {
 		return pjobResult{job: j, infra: err}
 	}
-	e := &pexec{v: j.v, pd: pd, deadline: deadline, dir: dir, path: filepath.Join(dir, "followed.log"),
+	e := &pexec{v: j.v, pd: pd, deadline: deadline, pl: pl, rng: rng, path: pl.path,
 		results: make(chan presult, 4096), done: make(chan struct{}), want: vh.FromInts(j.v.Expect)}
-	if err := os.WriteFile(e.path, vh.FromInts(j.v.Init), 0o644); err != nil {
-		return pjobResult{job: j, infra: err}
-	}
 	e.exists = true
 	e.written = len(j.v.Init)
-	wd := oc.watch(dir)
+	wd := int32(-1)
+	if kind == "file" { // the re-opens of a link are reported under the file's own name: not counted
+		wd = oc.watch(pl.dir)
+	}
 	// the poller itself (its PollDelay / ReadAttempts fields are needed); the dispatch in followreader.New is
 	// exercised by the replay, trace and cli sub-commands
 	p, err := followreader.NewPolling(e.path, j.v.Reopen)
@@ -455,7 +473,7 @@ func pexecute(j pjob, pd, deadline time.Duration, base string, oc *openCounter) 
 		opens -= 1 + e.myOpens
 	}
 	e.finish()
-	return pjobResult{job: j, out: out, events: e.events, infra: infra, opens: opens}
+	return pjobResult{job: j, out: out, events: e.events, infra: infra, opens: opens, kind: kind}
 }
 
 func prunJobs(jobs []pjob, pd, deadline time.Duration, hangs *int32, par int, base string, oc *openCounter) []pjobResult {
@@ -532,7 +550,7 @@ func c15Phase(args []string) error {
 		if r.infra == nil && isLive(r.out.Kind) && !chosen[r.job.idx] && len(chosen) < 8 {
 			chosen[r.job.idx] = true
 			for k := 0; k < 3; k++ {
-				rj = append(rj, pjob{idx: r.job.idx, v: r.job.v, raw: r.job.raw, rep: 1000 + k})
+				rj = append(rj, pjob{idx: r.job.idx, v: r.job.v, raw: r.job.raw, rep: 1000 + k, kind: r.kind})
 			}
 		}
 	}
@@ -609,7 +627,7 @@ func c15Phase(args []string) error {
 		if r.out.Kind != "" {
 			k := key{r.job.idx, r.out.Kind}
 			if agg[k] == nil {
-				agg[k] = &pmismatch{Vector: r.job.raw, Mode: r.job.v.mode(), Outcome: r.out}
+				agg[k] = &pmismatch{Vector: r.job.raw, Mode: r.job.v.mode() + ":" + r.kind, Outcome: r.out}
 			}
 			agg[k].Seen++
 		}
